@@ -88,7 +88,7 @@ def module_imports(relpath):
     """names bound by import statements at module level -> True"""
     _, tree = load_module_ast(relpath)
     out = set()
-    for st in ast.walk(tree):
+    for st in tree.body:
         if isinstance(st, ast.Import):
             for a in st.names:
                 out.add(a.asname or a.name.split('.')[0])
@@ -1091,7 +1091,9 @@ class Interp:
         raise PyRaise(v)
 
     def st_FunctionDef(self, st, env):
-        env.vars[st.name] = Closure(st, env, self.relpath, st.name)
+        clo = Closure(st, env, self.relpath, st.name)
+        clo.local = True          # nested function: part of the enclosing function's body
+        env.vars[st.name] = clo
 
     def st_Assign(self, st, env):
         v = self.eval(st.value, env)
@@ -1254,7 +1256,7 @@ class Interp:
         """Hoare rule for `for v in range(start, stop, step)` with symbolic bounds."""
         ctx = self.ctx
         label = spec.label or "L%d" % st.lineno
-        n = rng.count()          # Sym/int number of iterations (>= 0)
+        n = rng.count(ctx)          # Sym/int number of iterations (>= 0)
         # 1. invariant holds on entry
         for lab, f in spec.inv(ctx, env, 0):
             ctx.oblige("inv-init", "%s.%s" % (label, lab), f)
@@ -1967,12 +1969,26 @@ class SymRange(PyObj):
             return list(range(self.start, self.stop, self.step))
         return None
 
-    def count(self):
+    def count(self, ctx=None):
         c = self.concrete()
         if c is not None:
             return len(c)
+        if isinstance(self.step, Sym):
+            if getattr(self, '_n', None) is not None:
+                return self._n
+            if ctx is None:
+                raise Undecided("range with a symbolic step outside a modelled context")
+            # CPython: step == 0 raises ValueError; negative steps are not modelled
+            ctx.oblige("safe", "range_step_positive.L%d" % ctx.cur_line, self.step > 0)
+            ctx.assume(self.step > 0)
+            n = ctx.fresh_int("range_len")
+            d = self.stop - self.start
+            ctx.assume(And(n >= 0, Implies(d <= 0, n == 0),
+                           Implies(d > 0, And((n - 1) * self.step < d, d <= n * self.step, n >= 1))))
+            self._n = n
+            return n
         if not isinstance(self.step, int) or self.step <= 0:
-            raise Undecided("range with symbolic or non-positive step")
+            raise Undecided("range with non-positive step")
         d = self.stop - self.start
         if self.step == 1:
             n = d
@@ -1984,13 +2000,79 @@ class SymRange(PyObj):
         return self.start + k * self.step
 
     def len_(self, ctx):
-        return self.count()
+        return self.count(ctx)
+
+    def tolist_(self, ctx):
+        c = self.concrete()
+        if c is not None:
+            return c
+        return SeqList(ctx, self.count(ctx), lambda k: self.item(k))
 
     def iter_(self, ctx):
         c = self.concrete()
         if c is None:
             raise Undecided("iteration over symbolic range")
         return c
+
+
+class SeqList(PyObj):
+    """list of symbolic length given by an index function, with appended concrete tail; supports zip / enumerate loops"""
+
+    def __init__(self, ctx, n, item, tail=None):
+        self.n, self.item, self.tail = n, item, list(tail or [])
+
+    def len_(self, ctx):
+        return self.n + len(self.tail)
+
+    def at(self, k):
+        v = None
+        for j in range(len(self.tail) - 1, -1, -1):
+            v = self.tail[j] if v is None else ite(k == self.n + j, self.tail[j], v)
+        base = self.item(k)
+        if v is None:
+            return base
+        return ite(k < self.n, base, v)
+
+    def getattr_(self, ctx, name):
+        if name == 'append':
+            return Model(lambda c, x: self.tail.append(x), 'list.append')
+        raise Undecided("list.%s on a symbolic-length list" % name)
+
+    def getitem_(self, ctx, k):
+        L = self.len_(ctx)
+        if isinstance(k, int) and k < 0:
+            k = L + k
+        ctx.oblige("safe", "list_index_in_range.L%d" % ctx.cur_line, And(k >= 0, k < L))
+        return self.at(k)
+
+    def fingerprint_(self):
+        return ('seqlist', len(self.tail)), []
+
+    def zip_(self, ctx, xs):
+        if all(isinstance(x, SeqList) for x in xs):
+            lens = [x.len_(ctx) for x in xs]
+            n = lens[0]
+            for l in lens[1:]:
+                n = smin(n, l)
+            return SeqList(ctx, n, lambda k: tuple(x.at(k) for x in xs))
+        raise Undecided("zip of symbolic-length lists with other iterables")
+
+    def enumerate_(self, ctx, start=0):
+        return SeqList(ctx, self.len_(ctx), lambda k: (start + k, self.at(k)))
+
+    def cut_loop_(self, interp, st, env, spec):
+        return interp.cut_loop_range(st, env, _IdxRange(self.len_(interp.ctx), self.at), spec)
+
+
+class _IdxRange:
+    def __init__(self, n, item):
+        self.n, self._item = n, item
+
+    def count(self, ctx=None):
+        return self.n
+
+    def item(self, k):
+        return self._item(k)
 
 
 class SymList(PyObj):
